@@ -20,7 +20,16 @@ def main():
     hooks_commits = []
     hc = os.path.join(ROOT, "hooks_commits.txt")
     if os.path.exists(hc):
-        hooks_commits = [l.split()[0] for l in open(hc) if l.strip() and not l.startswith("#")]
+        hooks_commits = [l.split()[0] for l in open(hc) if l.strip() and not l.startswith("#") and " fix: " not in l]
+    # the authoritative list: commits of /repo whose subject starts with "verif hook"
+    try:
+        out = subprocess.run(["git", "-C", "/repo", "log", "--format=%h %s"], capture_output=True, text=True).stdout
+        for l in out.splitlines():
+            h, _, subj = l.partition(" ")
+            if subj.startswith("verif hook") and h not in hooks_commits:
+                hooks_commits.append(h)
+    except Exception:
+        pass
     man = {
      "version": 1,
      "setup_cmd": "./setup.sh",
